@@ -10,7 +10,7 @@ pub struct CfgEval<'a> {
     pub fired: usize,
 }
 
-fn eval_meta(m: &Meta, features: &BTreeSet<String>) -> bool {
+pub fn eval_meta(m: &Meta, features: &BTreeSet<String>) -> bool {
     match m {
         Meta::NameValue(nv) if nv.path.is_ident("feature") => {
             if let Expr::Lit(ExprLit { lit: Lit::Str(s), .. }) = &nv.value {
